@@ -1,17 +1,21 @@
 """C16 - sh calls do not modify their inputs and are repeatable.
 
 Theorems: coq/Props/C16.v over Model/Slices.v (sh/cmd.go in a Go slice memory).
-Correspondence: generated HISTORIES (initial environment, arrays of chosen length, closures over
-slices of chosen offset/len/cap, operations setenv | closure call | direct Run/RunV/RunWith/RunWithV/
-Output/OutputWith/Exec) are executed in-process against the real sh package (harness/unitrun op
-"shslice", child harness/argvchild reporting the argv it received); the Coq model is evaluated on
-the same history and must predict every argv, every returned text and every snapshot of every
-caller-visible array after every operation.  Concurrent part: two goroutines call one closure at
-once (children held by a gate file so the calls overlap), repeated; the model is run under a
-random interleaving; in the thorough tier the harness is also built with -race and a race
-report is a violation.
-Oracle (independent of the model): argv received == [expand(x, env at call time) for x in
-cmd + baked + extra], text == the arguments joined, no error, arrays and env map before == after."""
+Correspondence: generated HISTORIES (initial environment, arrays of chosen length, operations
+setenv (MAGEFILE_VERBOSE included) | mk = creation of a RunCmd/OutCmd closure over a slice of chosen
+offset/len/cap, at any point | closure call | direct Run/RunV/RunWith/RunWithV/Output/OutputWith/Exec)
+are executed in-process against the real sh package (harness/unitrun op "shslice", one process per
+history; child harness/argvchild reports the argv it received, prints it, and fails/keeps quiet when
+an argument --exit=N / --quiet scripts it).  Observed per call: argv, text handed back, bytes that
+reached os.Stdout (fresh file per call), exit status of the error, every caller-visible array in
+full, the env map.  The Coq model is evaluated on the same history and must predict all of it.
+Concurrent part: 2-6 goroutines call one closure (or sh.Output/sh.Run directly) at once; the gate that
+holds the children opens only when ALL of them are alive together (overlap is an observable); the
+model is run under a random interleaving; in the thorough tier the harness is also built with -race.
+Oracle (independent of the model): every call equals the reference of THAT CALL ALONE - argv =
+[expand(x, env at call time) for x in cmd + baked + extra], text/os.Stdout/status = what the child
+does with that argv routed as sh.Run / sh.Output route it under the environment of that call -
+and arrays and env map before == after."""
 import json, os, re
 from vlib import *
 
